@@ -16,7 +16,7 @@ pub fn prop() -> Prop {
         rule: "depth: operations {parse_value on nested arrays / objects / mixed, Value::to_vec, from_slice, \
                to_string, to_pretty_string, compare, convert_to_comparable, get_by_path with a path as deep as the \
                document (parser included), contains, strip_nulls, to_serde_json, traverse_check_string, \
-               array_values, get_by_keypath} x nesting depths on a doubling schedule 1..2^19 plus 255/256/257, \
+               array_values, get_by_keypath, delete_by_keypath, concat} x nesting depths on a doubling schedule 1..2^19 plus 255/256/257, \
                1000, 10^4, 10^5, documents built iteratively by the harness (text by repetition, JSONB by length \
                arithmetic, Value by a loop and mem::forget so that dropping is not measured); each probe runs in \
                its own child process inside a thread with an explicit 8 MiB stack (2 and 64 MiB too in thorough); \
@@ -58,6 +58,8 @@ pub const OPS: &[&str] = &[
     "traverse_check_string",
     "array_values",
     "get_by_keypath",
+    "delete_by_keypath",
+    "concat",
 ];
 
 // ---- document builders (iterative) -------------------------------------------------------------
@@ -220,6 +222,19 @@ fn run_op(op: &str, n: usize) -> Result<String, String> {
             let kp: Vec<jsonb::keypath::KeyPath> = (0..n).map(|_| jsonb::keypath::KeyPath::Index(0)).collect();
             Ok(format!("{:?}", jsonb::get_by_keypath(&b, kp.iter()).map(|v| v.len())))
         }
+        "delete_by_keypath" => {
+            let b = jsonb_arrays(n);
+            let kp: Vec<jsonb::keypath::KeyPath> = (0..n).map(|_| jsonb::keypath::KeyPath::Index(0)).collect();
+            let mut out = Vec::new();
+            jsonb::delete_by_keypath(&b, kp.iter(), &mut out).map_err(e)?;
+            Ok(format!("{} bytes", out.len()))
+        }
+        "concat" => {
+            let (a, b) = (jsonb_arrays(n), jsonb_objects(n));
+            let mut out = Vec::new();
+            jsonb::concat(&a, &b, &mut out).map_err(e)?;
+            Ok(format!("{} bytes", out.len()))
+        }
         _ => Err(format!("unknown op {op}")),
     }
 }
@@ -298,6 +313,7 @@ pub fn check_probe(p: &Probe, obs: &mut Obs) -> Result<(), String> {
                 "contains" => "F19-contains",
                 "strip_nulls" => "F19-strip_nulls",
                 "to_serde_json" => "F19-to_serde_json",
+                "delete_by_keypath" => "F19-delete_by_keypath",
                 _ => "F19-unlisted",
             };
             known::tolerate("C20", id, obs, msg)
